@@ -183,6 +183,65 @@ Proof.
 Qed.
 
 (* ------------------------------------------------------------------ the store sequence of one group *)
+(* ------------------------------------------------------------------ round 6: encodability of the emitted instructions *)
+(* what the A64 ISA can encode (ARM ARM): add/sub immediate = imm12, optionally shifted left by 12; ldp/stp (64-bit and D registers) =
+   imm7 scaled by 8: multiples of 8 in [-512, 504], all addressing modes; ldr/str = unsigned imm12 scaled by 8 for the fixed offset,
+   imm9 in [-256, 255] for pre/post-index.  The abstract machine does not look at these limits: they are proved separately. *)
+Definition imm_addsub_ok (v : Z) : bool := ((0 <=? v) && (v <=? 4095)) || ((v mod 4096 =? 0) && (0 <=? v) && (v <=? 16773120)).
+Definition a64_encodable (i : instr) : bool :=
+  match i with
+  | (Mbti, [OImm _]) => true
+  | (Mmov, [OReg _ _ _; OReg _ _ _]) => true
+  | (Msub, [OReg _ _ _; OReg _ _ _; OImm v]) => imm_addsub_ok v
+  | (Madd, [OReg _ _ _; OReg _ _ _; OImm v]) => imm_addsub_ok v
+  | (Mstp, [OReg _ sz _; OReg _ _ _; OMem _ off _]) => (sz =? 8) && (off mod 8 =? 0) && (-512 <=? off) && (off <=? 504)
+  | (Mldp, [OReg _ sz _; OReg _ _ _; OMem _ off _]) => (sz =? 8) && (off mod 8 =? 0) && (-512 <=? off) && (off <=? 504)
+  | (Mstr, [OReg _ sz _; OMem _ off mode]) =>
+    (sz =? 8) && (if mode =? 0 then (off mod 8 =? 0) && (0 <=? off) && (off <=? 32760) else (-256 <=? off) && (off <=? 255))
+  | (Mldr, [OReg _ sz _; OMem _ off mode]) =>
+    (sz =? 8) && (if mode =? 0 then (off mod 8 =? 0) && (0 <=? off) && (off <=? 32760) else (-256 <=? off) && (off <=? 255))
+  | (Mret, [OReg _ _ _]) => true
+  | _ => false
+  end.
+
+Lemma pair_inst_encodable st g total ps base p :
+  pairs_seq ps base -> In p ps -> 0 <= base -> base mod 16 = 0 -> base + 16 * Z.of_nat (length ps) <= total -> total <= 240 -> total mod 16 = 0 ->
+  a64_encodable (a64_pair_inst st g total p) = true.
+Proof.
+  intros Hs Hin Hb Hbm Hlen Ht Htm. destruct (In_nth_error _ _ Hin) as [n Hn]. destruct p as [[x oy] off].
+  pose proof (pairs_seq_nth ps base n x oy off Hs Hn) as Hoff.
+  assert (Hlt : (n < length ps)%nat) by (apply nth_error_Some; congruence).
+  assert (Hr : 0 <= off <= total - 16) by lia.
+  assert (Hm8 : off mod 8 = 0).
+  { rewrite Hoff. apply (mod_divide_0 _ 16 8); [lia | exists 2; reflexivity|]. replace (base + 16 * Z.of_nat n) with (base + Z.of_nat n * 16) by lia. rewrite Z.mod_add by lia. exact Hbm. }
+  assert (Ht8 : total mod 8 = 0) by (apply (mod_divide_0 _ 16 8); [lia | exists 2; reflexivity | exact Htm]).
+  assert (Hnt8 : (- total) mod 8 = 0) by (apply Z.mod_opp_l_z; [lia | exact Ht8]).
+  unfold a64_pair_inst, a64_mem, a64_reg.
+  destruct oy as [y|]; destruct st; destruct ((off =? 0) && negb (total =? 0)) eqn:E; cbn [a64_encodable Z.eqb Pos.eqb andb negb];
+    repeat match goal with
+    | |- (_ && _) = true => apply andb_true_iff; split
+    | |- (_ =? _) = true => apply Z.eqb_eq
+    | |- (_ <=? _) = true => apply Z.leb_le
+    end; auto; try lia.
+Qed.
+
+Lemma adjust_encodable sub adj i : 0 <= adj <= 16777215 -> In i (fst (a64_adjust sub adj)) -> a64_encodable i = true.
+Proof.
+  intros Ha Hin. unfold a64_adjust in Hin.
+  assert (Hq : adj = 4096 * (adj / 4096) + adj mod 4096) by (apply Z.div_mod; lia).
+  pose proof (Z.mod_pos_bound adj 4096 ltac:(lia)) as Hr.
+  assert (Hm : (adj - adj mod 4096) mod 4096 = 0).
+  { replace (adj - adj mod 4096) with ((adj / 4096) * 4096) by lia. apply Z.mod_mul. lia. }
+  destruct (Z.eqb_spec adj 0); [destruct Hin|]. destruct (Z.leb_spec adj 4095); [|destruct (Z.leb_spec adj 16777215); [|lia]]; cbn [fst] in Hin.
+  - destruct Hin as [<-|[]]. destruct sub; cbn [a64_encodable a64_reg]; unfold imm_addsub_ok; apply orb_true_iff; left;
+      apply andb_true_iff; split; apply Z.leb_le; lia.
+  - destruct Hin as [<-|[<-|[]]]; destruct sub; cbn [a64_encodable a64_reg]; unfold imm_addsub_ok; apply orb_true_iff.
+    + left. apply andb_true_iff; split; apply Z.leb_le; lia.
+    + left. apply andb_true_iff; split; apply Z.leb_le; lia.
+    + right. rewrite Hm, Z.eqb_refl. cbn [andb]. apply andb_true_iff; split; apply Z.leb_le; lia.
+    + right. rewrite Hm, Z.eqb_refl. cbn [andb]. apply andb_true_iff; split; apply Z.leb_le; lia.
+Qed.
+
 Section Group.
 Variable f : frame_in.
 Variable total : Z.
@@ -704,7 +763,7 @@ Record a64_body_ok (s0 s1 s2 : state) : Prop := mk_a64_bok {
   ab_ret : st_ret s2 = None;
   ab_sp : st_reg s2 0 31 = st_reg s1 0 31;
   ab_fp : has_fp = true -> st_reg s2 0 29 = st_reg s1 0 29;
-  ab_regs : forall g r, Z.testbit (qget (fo_dirty o) g) r = false -> st_reg s2 g r = st_reg s1 g r;
+  ab_regs : forall g r, Z.testbit (qget (fo_dirty o) g) r = false -> Z.testbit (qget (cc_preserved cc) g) r = true -> st_reg s2 g r = st_reg s1 g r;
   ab_mem : forall z, ~ a64_may_write (st_reg s0 0 31) z -> st_mem s2 z = st_mem s1 z
 }.
 
@@ -809,8 +868,9 @@ Proof.
   { intros g' r' H. unfold saved_regs in H. rewrite Z.land_spec in H. apply andb_true_iff in H. tauto. }
   assert (Hfp29 : has_fp = true -> Z.testbit (qget (fo_dirty o) 0) 29 = true).
   { intros Hfp. apply (Hsaved_dirty 0 29). apply (m0_fp Hfp). }
-  assert (U : forall g r, (g, r) <> (0, 31) -> Z.testbit (qget (fo_dirty o) g) r = false -> st_reg t3 g r = st_reg s0 g r).
-  { intros g r N31 Hd.
+  assert (U : forall g r, (g, r) <> (0, 31) -> Z.testbit (qget (fo_dirty o) g) r = false -> Z.testbit (qget (cc_preserved cc) g) r = true ->
+              st_reg t3 g r = st_reg s0 g r).
+  { intros g r N31 Hd Hpr.
     assert (N29 : has_fp = true -> (g, r) <> (0, 29)) by (intros Hfp E; inversion E; subst; rewrite (Hfp29 Hfp) in Hd; discriminate).
     assert (NSA : fin_sa f <> 31 -> (g, r) <> (0, fin_sa f)).
     { intros Hne E; inversion E; subst. change (qget (fo_dirty o) 0) with (q0 (fin_dirty f)) in Hd. rewrite (dirty0_sa_bit Hne) in Hd. discriminate. }
@@ -827,7 +887,7 @@ Proof.
     + assert (Hin : In 30 (pairs_regs gps)).
       { apply m0_in_gps. unfold m0, saved_regs. rewrite Z.land_spec, Hd. exact Hp30. }
       rewrite (Hv3 30 Hin). apply trunc_small'. exact Hlr.
-    + apply U; [congruence | exact Hd].
+    + apply U; [congruence | exact Hd | exact Hp30].
   - cbn [set_ret st_reg]. exact Hsp3.
   - intros g r Hp. cbn [set_ret st_reg].
     assert (Hg : g = 0 \/ g = 1).
@@ -848,7 +908,7 @@ Proof.
         rewrite Hr3 by (try congruence; intros; discriminate). rewrite (Hv2 r Hin). apply trunc_idem'. lia.
     + assert (N31 : (g, r) <> (0, 31)).
       { intros E; inversion E; subst. cbn [qget Z.eqb] in Hp. rewrite (testbit_above _ 31 31 Hp0) in Hp by lia. discriminate. }
-      rewrite (U g r N31 Hd). reflexivity.
+      rewrite (U g r N31 Hd Hp). reflexivity.
   - cbn [set_ret st_mem]. rewrite Hm3'. exact Hm_t2.
   - intros g r N31 Hns. cbn [set_ret st_reg].
     rewrite Hr3; auto.
@@ -978,6 +1038,45 @@ Proof.
   exists s1. split; [exact Hrun|]. split; [rewrite <- total_pp; apply PP|]. split; [apply PP|].
   intros s2 BO. destruct (a64_epilog_correct s0 s1 s2 PP BO Hal Hlr) as [s3 [H1 [_ [_ [_ [_ [H6 H7]]]]]]].
   exists s3. splits; auto.
+Qed.
+
+(* every instruction of the prolog and of the epilog is encodable when the push/pop save area is at most 240 bytes (true for every
+   library convention, see FrameContract.v): the Assembler cannot refuse what the emitters produce *)
+Lemma group_stores_in g ps i : In i (a64_group_stores f g total ps) -> i = a64_mov_fp \/ In i (map (a64_pair_inst true g total) ps).
+Proof.
+  unfold a64_group_stores. destruct ps as [|p rest]; [intros []|]. cbn [map In]. intros [H|H]; [right; left; exact H|].
+  apply in_app_or in H. destruct H as [H|H]; [|right; right; exact H].
+  destruct (fi_has_fp f); [destruct H as [H|[]]; left; auto | destruct H].
+Qed.
+
+Theorem a64_frame_encodable : total <= 240 ->
+  (forall i, In i (fst (prolog f o)) -> a64_encodable i = true) /\ (forall i, In i (fst (epilog f o)) -> a64_encodable i = true).
+Proof.
+  intros Ht. destruct total_mod as [Htm [Hgm [Hg0 Hgt]]]. destruct adj_facts as [Ha0 _].
+  assert (Hgl : 0 + 16 * Z.of_nat (length gps) <= total) by (unfold total, gpt; lia).
+  assert (Hvl : gpt + 16 * Z.of_nat (length vps) <= total) by (unfold total; lia).
+  assert (PG : forall st p, In p gps -> a64_encodable (a64_pair_inst st 0 total p) = true).
+  { intros st p Hp. apply (pair_inst_encodable st 0 total gps 0 p gps_seq Hp); auto; lia. }
+  assert (PV : forall st p, In p vps -> a64_encodable (a64_pair_inst st 1 total p) = true).
+  { intros st p Hp. apply (pair_inst_encodable st 1 total vps gpt p vps_seq Hp); auto; lia. }
+  assert (Hadj : forall sub i, In i (fst (a64_adjust sub (fo_stack_adj o))) -> a64_encodable i = true).
+  { intros sub i. apply adjust_encodable. split; [exact Ha0 | exact HADJ]. }
+  assert (Hok : snd (a64_adjust false (fo_stack_adj o)) = true).
+  { assert (Hb : fo_stack_adj o <= 16777215) by exact HADJ. unfold a64_adjust.
+    destruct (fo_stack_adj o =? 0); [reflexivity|]. destruct (fo_stack_adj o <=? 4095); [reflexivity|].
+    destruct (Z.leb_spec (fo_stack_adj o) 16777215); [reflexivity | lia]. }
+  split; intros i Hin.
+  - rewrite a64_prolog_segs in Hin. repeat (apply in_app_or in Hin; destruct Hin as [Hin|Hin]).
+    + destruct (fi_ibp f); [destruct Hin as [<-|[]]; reflexivity | destruct Hin].
+    + apply group_stores_in in Hin. destruct Hin as [->|Hin]; [reflexivity|]. apply in_map_iff in Hin. destruct Hin as [p [<- Hp]]. auto.
+    + apply group_stores_in in Hin. destruct Hin as [->|Hin]; [reflexivity|]. apply in_map_iff in Hin. destruct Hin as [p [<- Hp]]. auto.
+    + unfold a64_sa_init in Hin. destruct (_ && _); [destruct Hin as [<-|[]]; reflexivity | destruct Hin].
+    + eapply Hadj; eauto.
+  - rewrite (a64_epilog_segs Hok) in Hin. repeat (apply in_app_or in Hin; destruct Hin as [Hin|Hin]).
+    + eapply Hadj; eauto.
+    + apply in_map_iff in Hin. destruct Hin as [p [<- Hp]]. apply PV. apply in_rev. exact Hp.
+    + apply in_map_iff in Hin. destruct Hin as [p [<- Hp]]. apply PG. apply in_rev. exact Hp.
+    + destruct Hin as [<-|[]]. reflexivity.
 Qed.
 
 (* stack arguments END TO END on AArch64: what the caller stored at [entry sp + off] is readable after the prolog with the caller's
